@@ -158,6 +158,14 @@ def function(ip: Interp, fn: PyConst, args, kwargs, n):
         if isinstance(x, PyTuple):
             return x
         return Val.vtup(ip.as_seq(x, n))
+    if name == 'dict':
+        if not args:
+            return Val.vdict(z3.K(z3.StringSort(), z3.BoolVal(False)), z3.K(z3.StringSort(), Val.none))
+        (x,) = args
+        if ip.dictview(x) is not None:
+            gk, _, gv, _ = ip.dictview(x)
+            return PRec(x.cls if isinstance(x, PRec) else 'DictD', {'dkeys': gk(), 'dvals': gv()})
+        ip.oos('dict() of this value', n)
     if name == 'set':
         if not args:
             return z3.K(z3.StringSort(), z3.BoolVal(False))
@@ -244,6 +252,10 @@ def function(ip: Interp, fn: PyConst, args, kwargs, n):
             nparams = len(c.sig) - 1
             return ip.call_contract(c, None, [f, *rest[:nparams]], {}, n)
         return ip.call(f, rest, kwargs, n)
+    if name == 'ast_walk':
+        (t,) = args
+        ip.w.assumptions.add('ast.walk(tree) yields every node of the tree (assumed contract on the stdlib)')
+        return OpaqueSeq('AstNode', ip.w.uf('ast_walk', z3.IntSort(), z3.SeqSort(z3.IntSort()))(t.ident))
     if name in ('ismethod', 'is_func'):
         (f,) = args
         if isinstance(f, (FuncVal, Opaque)):
@@ -543,6 +555,11 @@ def _isinstance1(ip, x, cc: PyConst, n):
             return z3.And(Val.is_vobj(x), Val.ocls(x) >= 0, Val.ocls(x) < len(ip.w.exc.names),
                           ip.w.exc.is_sub(Val.ocls(x), name))
         return False
+    if cc.kind == 'astclass':
+        if isinstance(x, Opaque) and x.kind == 'AstNode':
+            cls = ip.w.uf('astnode_class', z3.IntSort(), z3.IntSort())(x.ident)
+            return cls == ip.kind_id('ast.' + name)
+        return False
     if isinstance(x, Opaque):
         if cc.kind == 'modelclass' and x.kind == 'Model':
             cls = ip.w.uf('model_class', z3.IntSort(), z3.IntSort())(x.ident)
@@ -596,6 +613,8 @@ def _isinstance1(ip, x, cc: PyConst, n):
                 return Val.is_vtup(x)
             if name == 'dict':
                 return Val.is_vdict(x)
+            if name == 'type':
+                return ip.w.uf('val_is_type', Val, z3.BoolSort())(x)
             ip.oos(f'isinstance(Val, {name})', n)
         return False
     ip.oos(f'isinstance against {cc.kind} {name}', n)
